@@ -16,13 +16,13 @@ import (
 func init() {
 	fw.Register(&fw.Check{
 		ID: "C13", Level: "model_checking",
-		Rule:   "ELX with slow (gated) handlers, MaxConcurrentStreams=2, MaxRequestBodySize=8, MaxHeaderListSize=200: every sequence up to the depth bound over the adversarial moves {request (HEADERS+ES) on a new id, half-open request, RST_STREAM of the newest stream, PRIORITY / WINDOW_UPDATE on a new idle id, HEADERS without END_HEADERS, CONTINUATION with more fields, DATA over the body limit, mis-declared content-length, PING, SETTINGS, oldest handler returns}; plus every non-fatal sequence pumped x8 and x32 to separate 'bounded by the limits' from 'grows with the frames sent'. Oracle at every quiescent state: handlers running <= MaxConcurrentStreams; body and header list seen by a handler within the limits; objects the connection holds (pool gauges of the controlled runtime: Stream, RequestCtx, FrameHeader, frame bodies) within limit-derived bounds and equal for both pump counts. Non-trivial: sequence has >= 3 moves or is pumped; distinct by (sequence, pump).",
+		Rule:   "ELX with slow (gated) handlers, MaxConcurrentStreams=2, MaxRequestBodySize=8, MaxHeaderListSize=400: every sequence up to the depth bound over the adversarial moves {request (HEADERS+ES) on a new id, half-open request, RST_STREAM of the newest stream, PRIORITY / WINDOW_UPDATE on a new idle id, HEADERS without END_HEADERS, CONTINUATION with more fields, DATA over the body limit, mis-declared content-length, PING, SETTINGS, oldest handler returns}; plus every non-fatal sequence pumped x8 and x32 to separate 'bounded by the limits' from 'grows with the frames sent'. Oracle at every quiescent state: handlers running <= MaxConcurrentStreams; body and header list seen by a handler within the limits; objects the connection holds (pool gauges of the controlled runtime: Stream, RequestCtx, FrameHeader, frame bodies) within limit-derived bounds and equal for both pump counts. Non-trivial: sequence has >= 3 moves or is pumped; distinct by (sequence, pump).",
 		Assume: []string{"per-connection state is observed as outstanding pooled objects (Get minus Put) of the deterministic pools the overlay substitutes for sync.Pool; the closed-stream ring (bounded by a constant in the code) is not observable this way", "canonical internal schedule between events"},
 		Run:    runC13, Replay: replayC13, QuickS: 60, ThoroughS: 900,
 	})
 }
 
-var c13Moves = []string{"request", "half-open", "rst-newest", "priority-new", "window-update-new", "headers-open-block", "continuation", "continuation-end", "data-over-limit", "content-length-over", "ping", "settings", "finish-oldest"}
+var c13Moves = []string{"request", "half-open", "rst-newest", "priority-new", "window-update-new", "headers-open-block", "continuation", "continuation-end", "continuation-unfinished-field", "data-over-limit", "data-over-limit+ES", "data-at-limit+ES", "content-length-over", "request-huge-path", "ping", "settings", "finish-oldest"}
 
 type c13Case struct {
 	Path  []int    `json:"path"`
@@ -31,19 +31,20 @@ type c13Case struct {
 }
 
 type c13Run struct {
-	h       *harness.Server
-	next    uint32
-	newest  uint32
-	block   uint32 // stream with an open header block
-	trace   []string
-	dead    bool
-	limit   int
-	maxBody int
-	maxHdr  int
+	h          *harness.Server
+	next       uint32
+	newest     uint32
+	block      uint32 // stream with an open header block
+	trace      []string
+	dead       bool
+	limit      int
+	maxBody    int
+	maxHdr     int
+	blockBytes int // bytes of an unfinished field sent in the open header block
 }
 
 func newC13() *c13Run {
-	x := &c13Run{next: 1, limit: 2, maxBody: 8, maxHdr: 200}
+	x := &c13Run{next: 1, limit: 2, maxBody: 8, maxHdr: 400}
 	x.h = harness.NewServer(harness.ServerOpts{MaxConcurrentStreams: x.limit, MaxRequestBodySize: x.maxBody, MaxHeaderListSize: x.maxHdr})
 	return x
 }
@@ -59,11 +60,11 @@ func (x *c13Run) menu() []string {
 	var m []string
 	for _, mv := range c13Moves {
 		switch mv {
-		case "continuation", "continuation-end":
+		case "continuation", "continuation-end", "continuation-unfinished-field":
 			if x.block == 0 {
 				continue
 			}
-		case "rst-newest", "data-over-limit":
+		case "rst-newest", "data-over-limit", "data-over-limit+ES", "data-at-limit+ES":
 			if x.newest == 0 || x.block != 0 {
 				continue
 			}
@@ -116,6 +117,25 @@ func (x *c13Run) apply(mv string) {
 		x.block = 0
 	case "data-over-limit":
 		h.SendFrames(peer.Data(x.newest, []byte("0123456789abcdef"), false, -1))
+	case "data-over-limit+ES":
+		// the frame that crosses the limit also ends the stream
+		h.SendFrames(peer.Data(x.newest, []byte("0123456"), false, -1))
+		h.SendFrames(peer.Data(x.newest, []byte("789abcdef"), true, -1))
+	case "data-at-limit+ES":
+		h.SendFrames(peer.Data(x.newest, []byte("01234567"), true, -1))
+	case "request-huge-path":
+		id := x.newID()
+		fields := harness.ReqFields("GET", "https", "h", "/"+valOfLen(300), [2]string{"x-sid", fmt.Sprint(id)})
+		h.SendFrames(peer.Headers(id, staticBlock(fields), peer.HeadersOpt{EndStream: true, EndHeaders: true, Pad: -1}))
+	case "continuation-unfinished-field":
+		// a literal whose declared length (1 MiB) never completes: the bytes can only be buffered
+		if x.blockBytes == 0 {
+			h.SendFrames(peer.Continuation(x.block, append([]byte{0x00, 0x01, 'k', 0x7f, 0x81, 0xff, 0x3f}, make([]byte, 4000)...), false))
+			x.blockBytes = 4000
+		} else {
+			h.SendFrames(peer.Continuation(x.block, make([]byte, 8000), false))
+			x.blockBytes += 8000
+		}
 	case "content-length-over":
 		id := x.newID()
 		fields := harness.ReqFields("POST", "https", "h", "/big", [2]string{"x-sid", fmt.Sprint(id)}, [2]string{"content-length", "1000000"})
@@ -148,13 +168,16 @@ func (x *c13Run) check() (rule, shape, detail string) {
 		if len(c.Req.Body) > x.maxBody {
 			return "body-above-limit", "body", fmt.Sprintf("handler got a %d-byte body, MaxRequestBodySize is %d", len(c.Req.Body), x.maxBody)
 		}
-		sz := 0
+		sz := len(":method") + len(c.Req.Method) + 32 + len(":path") + len(c.Req.URI) + 32 + len(":scheme") + 5 + 32
 		for _, kv := range c.Req.Headers {
 			sz += len(kv[0]) + len(kv[1]) + 32
 		}
 		if sz > x.maxHdr+64 {
 			return "header-list-above-limit", "headers", fmt.Sprintf("handler got a header list of %d (RFC 7540 6.5.2 size), MaxHeaderListSize is %d", sz, x.maxHdr)
 		}
+	}
+	if !x.dead && x.blockBytes > x.maxHdr+16384+4096 {
+		return "header-bytes-buffered-above-limit", "unfinished-field", fmt.Sprintf("%d bytes of one unfinished header field were accepted in CONTINUATION frames with MaxHeaderListSize=%d and no error was raised: they can only be sitting in a buffer", x.blockBytes, x.maxHdr)
 	}
 	g := harness.Gauge()
 	if n := g["*http2.Stream"]; n > x.limit+2 {
